@@ -118,6 +118,11 @@ ROUNDTRIP_NEG = [
     ({"project_urls": {"a,b": "u"}}, ({"project_urls": {"a": "b, u"}}, {})),
     ({"project_urls": {"a": " u "}}, ({"project_urls": {"a": "u"}}, {})),
     ({"project_urls": {" a": "u"}}, ({"project_urls": {"a": "u"}}, {})),
+    # surrogate code points (outside wf_text: text_str): str input only
+    ({"name": "caf\udcc3\udca9"}, ({"name": "caf\u00e9"}, {})),
+    ({"name": "x\udc80"}, ({}, {"name": ["x\x80"]})),
+    ({"description": "x\udcff"}, ({"description": "x\ufffd"}, {})),
+    ({"classifiers": ["\udcc3\udca9"]}, ({"classifiers": ["\u00e9"]}, {})),
 ]
 
 # ---- well-formed RawMetadata for the round trip
